@@ -12,7 +12,8 @@ RULE = ('generated reference DAGs over 2-7 id-carrying sibling elements (rect / 
         '(wh / width / height / r) read from longhand targets that carry a size delta and are themselves placed by x / y references; every sibling order for n <= 5 '
         'and 40 random orders above; all orders must give identical geometry keyed by id (or all fail); documents with an unknown id, a '
         'reference cycle or a target without bounding box must fail in every order. non-trivial = distinct DAG with >= 1 reference')
-THEOREM_NOTES = ('Props/C10.v: retry_least, retry_order_independent (abstract loop over a monotone step), pass_only_shrinks (concrete pipeline model). '
+THEOREM_NOTES = ('Props/C10.v: retry_least, retry_order_independent (abstract loop over a monotone step), pass_only_shrinks (concrete pipeline model), '
+                 'order_independence_needs_monotone_refuted (the hypothesis cannot be dropped: two-element witness of the K3 shape). '
                  'The concrete step is NOT monotone on the pinned tree (early registration of unresolved elements): known finding K3, excluded by class')
 ASSUMPTIONS = ['side-effect-free documents (no variables, no ^ previous-element references): prev_element is order dependent by design and excluded by the property']
 
